@@ -1373,3 +1373,341 @@ Proof.
   intros inp s mv s' H. unfold exec_checked in H.
   destruct (move_executable inp s mv); [split; [reflexivity|exact H]|discriminate].
 Qed.
+
+(* ------------------------------------------------------------------ *)
+(* The side conditions are decidable: boolean checkers                 *)
+(* ------------------------------------------------------------------ *)
+
+Definition distances_nonneg_b (inp : input) : bool :=
+  forallb (forallb (fun z => 0 <=? z)) (in_distance inp).
+Definition stop_durations_nonneg_b (inp : input) : bool :=
+  forallb (fun st => 0 <=? is_duration st) (in_stops inp).
+Definition durations_metric_b (inp : input) : bool :=
+  let ids := seqn (nmodel_stops inp) in
+  forallb (fun a => forallb (fun b => forallb (fun c =>
+    travel_duration inp a c <=? travel_duration inp a b + travel_duration inp b c) ids) ids) ids.
+
+Lemma distances_nonneg_b_ok (inp : input) : distances_nonneg_b inp = true -> distances_nonneg inp.
+Proof.
+  unfold distances_nonneg_b, distances_nonneg. intros H. rewrite forallb_forall in H.
+  apply Forall_forall. intros row Hrow. specialize (H row Hrow). rewrite forallb_forall in H.
+  apply Forall_forall. intros z Hz. apply Z.leb_le. exact (H z Hz).
+Qed.
+
+Lemma stop_durations_nonneg_b_ok (inp : input) :
+  stop_durations_nonneg_b inp = true -> stop_durations_nonneg inp.
+Proof.
+  unfold stop_durations_nonneg_b, stop_durations_nonneg. intros H. rewrite forallb_forall in H.
+  apply Forall_forall. intros st Hst. apply Z.leb_le. exact (H st Hst).
+Qed.
+
+Lemma durations_metric_b_ok (inp : input) : durations_metric_b inp = true -> durations_metric inp.
+Proof.
+  unfold durations_metric_b, durations_metric. cbv zeta. intros H a b c Ha Hb Hc.
+  rewrite forallb_forall in H. specialize (H a (proj2 (In_seqn _ _) Ha)).
+  rewrite forallb_forall in H. specialize (H b (proj2 (In_seqn _ _) Hb)).
+  rewrite forallb_forall in H. specialize (H c (proj2 (In_seqn _ _) Hc)).
+  apply Z.leb_le. exact H.
+Qed.
+
+(* ------------------------------------------------------------------ *)
+(* The per-constraint statements on reachable states                   *)
+(* ------------------------------------------------------------------ *)
+
+Section PerConstraint.
+  Variables (inp : input) (s : state) (mv : move).
+  Hypothesis Hwf : wf_input inp.
+  Hypothesis Hreach : reachable inp s.
+  Hypothesis Hmv : move_ok inp s mv.
+  Hypothesis Hnp : unit_planned inp s (mv_unit mv) = false.
+
+  Let HI : InvT inp s := reachable_invT inp s Hwf Hreach.
+
+  Theorem C09_est_latest_start_sound_proof :
+    est_latest_start inp s mv = false ->
+    Forall (cl_latest_start inp (mv_vehicle mv)) (new_cells inp s mv).
+  Proof. exact (est_latest_start_sound inp s mv). Qed.
+
+  Theorem C09_est_latest_end_sound_proof :
+    est_latest_end inp s mv = false ->
+    Forall (cl_latest_end inp (mv_vehicle mv)) (new_cells inp s mv).
+  Proof. exact (est_latest_end_sound inp s mv). Qed.
+
+  Theorem C09_est_capacity_sound_proof :
+    (forall r, (r < in_nres inp)%nat -> est_capacity inp s mv r = false) ->
+    Forall (cl_capacity inp (mv_vehicle mv)) (new_cells inp s mv).
+  Proof.
+    intros H. apply Forall_forall. intros c Hc Hcap r Hr.
+    assert (Hns : exists s0, new_solution inp = Some s0).
+    { pose proof Hreach as (s0 & h & Hns & _). exists s0. exact Hns. }
+    assert (HF : Forall (fun c => 0 <= nthZ (c_levels c) r <= capacity inp (mv_vehicle mv) r) (new_cells inp s mv))
+      by (eapply est_capacity_sound; eauto).
+    rewrite Forall_forall in HF. exact (HF c Hc).
+  Qed.
+
+  Theorem C09_est_distance_sound_proof :
+    distances_nonneg inp -> est_distance inp s mv = false ->
+    Forall (cl_distance inp (mv_vehicle mv)) (new_cells inp s mv).
+  Proof. intros; eapply est_distance_sound; eassumption. Qed.
+
+  Theorem C09_est_max_wait_stop_sound_proof :
+    est_max_wait_stop inp s mv = false ->
+    Forall (cl_max_wait_stop inp (mv_vehicle mv)) (new_cells inp s mv).
+  Proof. intros; eapply est_max_wait_stop_sound; eassumption. Qed.
+
+  Theorem C09_est_max_wait_vehicle_sound_partial_proof :
+    durations_metric inp -> stop_durations_nonneg inp ->
+    est_max_wait_vehicle inp s mv = false ->
+    Forall (cl_max_wait_vehicle inp (mv_vehicle mv)) (new_cells inp s mv).
+  Proof. intros; eapply est_max_wait_vehicle_sound; eassumption. Qed.
+
+  (* and the exact check is nothing but the six clauses *)
+  Theorem C09_new_cells_pass_proof :
+    (forall u, In u (in_user inp) -> False) -> distances_nonneg inp -> wait_vehicle_side inp ->
+    estimate_violated inp s mv = false ->
+    Forall (fun c => stop_violation inp (mv_vehicle mv) true c = None) (new_cells inp s mv).
+  Proof.
+    intros Huser Hdn Hside Hev.
+    assert (Hns : exists s0, new_solution inp = Some s0).
+    { pose proof Hreach as (s0 & h & Hns & _). exists s0. exact Hns. }
+    assert (Hu : in_user inp = []).
+    { destruct (in_user inp) as [|a l]; [reflexivity|]. exfalso. apply (Huser a). left. reflexivity. }
+    eapply all_new_cells_pass; eassumption.
+  Qed.
+End PerConstraint.
+
+(* max stops and attributes have an estimate but NO exact check: whatever their
+   estimates answer, the exact check of a cell does not depend on them *)
+Theorem C09_no_exact_check_for_max_stops_and_attributes_proof : forall inp v c,
+  in_user inp = [] ->
+  (stop_violation inp v true c = None <->
+   cl_capacity inp v c /\ cl_distance inp v c /\ cl_latest_end inp v c /\
+   cl_latest_start inp v c /\ cl_max_wait_stop inp v c /\ cl_max_wait_vehicle inp v c).
+Proof.
+  intros inp v c Hu. split.
+  - apply passes_clauses.
+  - intros (H1 & H2 & H3 & H4 & H5 & H6). apply clauses_pass; assumption.
+Qed.
+
+(* ================================================================== *)
+(* 5. The refutation: vehicle max wait                                 *)
+(* ================================================================== *)
+
+(* Two stops X (0) and Y (1), one vehicle (first stop 2, last stop 3), start
+   time 0, vehicle max wait 2400 s.  X opens at 3000, Y opens at 6600, no
+   service durations.  Travel durations (seconds), NOT metric:
+       first -> Y : 6000        first -> X : 600        X -> Y : 3000
+   Route before the move: first, Y, last.  Y is reached at 6000 and waits 600
+   (accumulated wait 600 <= 2400).
+   Move: X between first and Y.  X is reached at 600 and waits 2400 for its
+   window (accumulated 2400 <= 2400: the estimate does not complain), leaves at
+   3000 and reaches Y at 6000: the arrival at Y is UNCHANGED, all stops of the
+   unit are placed, the estimate breaks and answers "not violated".
+   Exact check: Y still waits 600, accumulated wait 3000 > 2400: the move is
+   rejected by the vehicle max-wait constraint and rolled back. *)
+Definition w_opts : options :=
+  mkOptions false false false false false false false false false false false 0 1 0 1.
+Definition w_X : istop := mkIStop [] 0 [(3000, 100020)] None 10 [].
+Definition w_Y : istop := mkIStop [] 0 [(6600, 100020)] None 10 [].
+Definition w_veh : ivehicle :=
+  mkIVehicle None [] 0 None None None None (Some 2400) [] 0 true true.
+Definition w_mat : list (list Z) :=
+  [[0; 3000; 600; 600]; [3000; 0; 6000; 0]; [600; 6000; 0; 0]; [600; 0; 0; 0]].
+Definition w_inp : input :=
+  mkInput [] [w_X; w_Y] [w_veh] [mkIUnit [0%nat] []; mkIUnit [1%nat] []] w_mat w_mat 0 w_opts.
+Definition w_dummy : state := mkState [] [] [] [] [] 0.
+Definition w_s0 : state :=
+  Eval vm_compute in match new_solution w_inp with Some s => s | None => w_dummy end.
+Definition w_mvY : move := mkMove 1 0 [(1, 1)]%nat.
+Definition w_mvX : move := mkMove 0 0 [(0, 1)]%nat.
+Definition w_s1 : state := Eval vm_compute in fst (exec_move w_inp w_s0 w_mvY).
+Definition w_s2 : state := Eval vm_compute in fst (exec_checked w_inp w_s1 w_mvX).
+
+Lemma w_wf : wf_input w_inp.
+Proof.
+  split; [|split].
+  - vm_compute. repeat (constructor; [simpl; lia|]). constructor.
+  - intros x. vm_compute. lia.
+  - intros u Hu. vm_compute in Hu. destruct Hu as [<-|[<-|[]]]; discriminate.
+Qed.
+
+Lemma w_windows : input_windows_ok w_inp.
+Proof.
+  unfold input_windows_ok, w_inp. cbn [in_stops].
+  repeat constructor; cbn; try lia; reflexivity.
+Qed.
+
+Lemma w_nonneg : matrices_nonneg w_inp /\ stop_durations_nonneg w_inp.
+Proof.
+  split; [split|].
+  - unfold w_inp. cbn [in_duration]. unfold w_mat. repeat constructor; lia.
+  - apply distances_nonneg_b_ok. vm_compute. reflexivity.
+  - apply stop_durations_nonneg_b_ok. vm_compute. reflexivity.
+Qed.
+
+Lemma w_new : new_solution w_inp = Some w_s0.
+Proof. vm_compute. reflexivity. Qed.
+
+Lemma w_mvY_ok : move_ok w_inp w_s0 w_mvY.
+Proof.
+  unfold move_ok. vm_compute.
+  split; [lia|]. split; [lia|]. split; [apply Permutation_refl|]. split; [discriminate|].
+  split; repeat constructor.
+Qed.
+
+Lemma w_mvY_done : exec_move w_inp w_s0 w_mvY = (w_s1, Done).
+Proof. vm_compute. reflexivity. Qed.
+
+Lemma w_mvX_ok : move_ok w_inp w_s1 w_mvX.
+Proof.
+  unfold move_ok. vm_compute.
+  split; [lia|]. split; [lia|]. split; [apply Permutation_refl|]. split; [discriminate|].
+  split; repeat constructor.
+Qed.
+
+Lemma w_reachable : reachable w_inp w_s1.
+Proof.
+  exists w_s0, [OpPlan w_mvY]. split; [exact w_new|]. split.
+  - cbn [fresh op_ok]. split; [exact w_mvY_ok|exact I].
+  - cbn [run step]. rewrite w_mvY_done. cbn [fst]. right. left. reflexivity.
+Qed.
+
+(* the route before the move and what the exact recomputation of the new route says *)
+Example w_route_before :
+  route_stops (get_route w_s1 0) = [2; 1; 3]%nat /\
+  map c_arrival (get_route w_s1 0) = [0; 6000; 6600] /\
+  map c_wait_acc (get_route w_s1 0) = [0; 600; 600].
+Proof. vm_compute. repeat split. Qed.
+
+Example w_route_after :
+  map c_stop (from_scratch w_inp 0 [2; 0; 1; 3]%nat) = [2; 0; 1; 3]%nat /\
+  map c_arrival (from_scratch w_inp 0 [2; 0; 1; 3]%nat) = [0; 600; 6000; 6600] /\
+  map c_start (from_scratch w_inp 0 [2; 0; 1; 3]%nat) = [0; 3000; 6600; 6600] /\
+  map c_wait_acc (from_scratch w_inp 0 [2; 0; 1; 3]%nat) = [0; 2400; 3000; 3000].
+Proof. vm_compute. repeat split. Qed.
+
+Theorem C09_max_wait_vehicle_refuted_proof :
+  exists inp s mv,
+    wf_input inp /\ input_windows_ok inp /\ matrices_nonneg inp /\ stop_durations_nonneg inp /\
+    (forall u, In u (in_user inp) -> False) /\
+    reachable inp s /\ move_ok inp s mv /\
+    has_max_wait_vehicle inp = true /\ est_max_wait_vehicle inp s mv = false /\
+    move_executable inp s mv = true /\
+    snd (exec_checked inp s mv) = Rejected KMaxWaitVehicle /\
+    same_obs (fst (exec_checked inp s mv)) s.
+Proof.
+  exists w_inp, w_s1, w_mvX.
+  split; [exact w_wf|]. split; [exact w_windows|].
+  split; [exact (proj1 w_nonneg)|]. split; [exact (proj2 w_nonneg)|].
+  split; [intros u Hu; exact Hu|].
+  split; [exact w_reachable|]. split; [exact w_mvX_ok|].
+  split; [vm_compute; reflexivity|]. split; [vm_compute; reflexivity|].
+  split; [vm_compute; reflexivity|]. split; [vm_compute; reflexivity|].
+  vm_compute. repeat split; intros H; exact H.
+Qed.
+
+(* the wanted statement is false of the model *)
+Theorem C09_executable_executes_refuted_proof :
+  exists inp s mv s' r,
+    wf_input inp /\ matrices_nonneg inp /\ reachable inp s /\ move_ok inp s mv /\
+    (forall u, In u (in_user inp) -> False) /\
+    move_executable inp s mv = true /\
+    exec_checked inp s mv = (s', r) /\ r = Rejected KMaxWaitVehicle.
+Proof.
+  exists w_inp, w_s1, w_mvX, w_s2, (Rejected KMaxWaitVehicle).
+  split; [exact w_wf|]. split; [exact (proj1 w_nonneg)|].
+  split; [exact w_reachable|]. split; [exact w_mvX_ok|].
+  split; [intros u Hu; exact Hu|].
+  split; [vm_compute; reflexivity|]. split; [vm_compute; reflexivity|reflexivity].
+Qed.
+
+(* the witness is outside the side condition of the partial theorem, as it must be *)
+Example w_not_metric : ~ durations_metric w_inp.
+Proof.
+  intros H. specialize (H 2%nat 0%nat 1%nat). vm_compute in H.
+  apply H; [lia|lia|lia|reflexivity].
+Qed.
+
+(* ================================================================== *)
+(* 6. Non-vacuity of the partial theorem                               *)
+(* ================================================================== *)
+
+(* Engine_spec's ex2: 3 stops, 2 resources, 2 vehicles, every built-in
+   constraint installed (capacity, distance limit, windows, end time, max
+   duration, max wait per stop and per vehicle); metric matrix.  The second
+   move is offered as executable and the theorem applies to it. *)
+Example ex2_hyps :
+  wf_input ex2_inp /\ distances_nonneg ex2_inp /\ reachable ex2_inp ex2_s1 /\
+  move_ok ex2_inp ex2_s1 ex2_mv2 /\ (forall u, In u (in_user ex2_inp) -> False) /\
+  wait_vehicle_side ex2_inp /\ has_max_wait_vehicle ex2_inp = true /\
+  move_executable ex2_inp ex2_s1 ex2_mv2 = true.
+Proof.
+  split; [exact ex2_wf|].
+  split; [apply distances_nonneg_b_ok; vm_compute; reflexivity|].
+  split.
+  { exists ex2_s0, [OpPlan ex2_mv1]. split; [exact ex2_new|]. split.
+    - cbn [fresh op_ok]. split; [exact ex2_move1_ok|exact I].
+    - cbn [run step]. rewrite ex2_move1_done. cbn [fst]. right. left. reflexivity. }
+  split; [exact ex2_move2_ok|].
+  split; [intros u Hu; exact Hu|].
+  split.
+  { right. split; [apply durations_metric_b_ok|apply stop_durations_nonneg_b_ok];
+      vm_compute; reflexivity. }
+  split; vm_compute; reflexivity.
+Qed.
+
+Example ex2_applies : snd (exec_checked ex2_inp ex2_s1 ex2_mv2) = Done.
+Proof.
+  destruct ex2_hyps as (H1 & H2 & H3 & H4 & H5 & H6 & _ & H8).
+  destruct (exec_checked ex2_inp ex2_s1 ex2_mv2) as [s' r] eqn:E.
+  exact (C09_executable_executes_partial_proof _ _ _ _ _ H1 H2 H3 H4 H5 H6 H8 E).
+Qed.
+
+(* an estimate that does say "violated": Engine_inv's ex (capacity 1, two
+   pick-ups): the move is not offered and exec_checked leaves the state alone *)
+Example ex_not_offered :
+  move_executable ex_inp ex_s1 ex_mv2 = false /\
+  exec_checked ex_inp ex_s1 ex_mv2 = (ex_s1, NotExecutable).
+Proof. split; vm_compute; reflexivity. Qed.
+
+(* ================================================================== *)
+(* 7. The hypothesis distances_nonneg cannot be dropped (in the model)  *)
+(* ================================================================== *)
+
+(* est_distance models the branch the code takes for an expression WITHOUT
+   negative values (model_maximum.go: !hasNegativeValues): it looks at the
+   cumulative value at the vehicle's last stop only.  With a negative matrix
+   entry (Z -> last = -50) the maximum sits in the middle of the route and the
+   estimate misses it.  This is outside the domain in which est_distance is a
+   model of the code (there the code walks every downstream stop), so it is
+   NOT a candidate defect; it only shows the hypothesis is used. *)
+Definition n_st : istop := mkIStop [] 0 [] None 10 [].
+Definition n_veh : ivehicle :=
+  mkIVehicle None [] 0 None None None (Some 100) None [] 0 true true.
+Definition n_dur : list (list Z) := map (fun _ => [0; 0; 0; 0; 0]) (seqn 5).
+Definition n_dist : list (list Z) :=
+  [[0; 5; 0; 0; 0]; [0; 0; 90; 0; 0]; [0; 0; 0; 0; -50]; [15; 10; 0; 0; 0]; [0; 0; 0; 0; 0]].
+Definition n_inp : input :=
+  mkInput [] [n_st; n_st; n_st] [n_veh] [mkIUnit [0%nat] []; mkIUnit [1%nat; 2%nat] []]
+          n_dur n_dist 0 w_opts.
+Definition n_s0 : state :=
+  Eval vm_compute in match new_solution n_inp with Some s => s | None => w_dummy end.
+Definition n_mvYZ : move := mkMove 1 0 [(1, 1); (2, 1)]%nat.
+Definition n_mvX : move := mkMove 0 0 [(0, 1)]%nat.
+Definition n_s1 : state := Eval vm_compute in fst (exec_move n_inp n_s0 n_mvYZ).
+
+Example distances_nonneg_needed :
+  new_solution n_inp = Some n_s0 /\ exec_move n_inp n_s0 n_mvYZ = (n_s1, Done) /\
+  map c_cumdist (get_route n_s1 0) = [0; 10; 100; 50] /\
+  move_executable n_inp n_s1 n_mvX = true /\
+  snd (exec_checked n_inp n_s1 n_mvX) = Rejected KDistance /\
+  ~ distances_nonneg n_inp.
+Proof.
+  repeat split; try (vm_compute; reflexivity).
+  intros H. unfold distances_nonneg, n_inp in H. cbn [in_distance] in H. unfold n_dist in H.
+  inversion H as [|? ? _ H1]; subst. inversion H1 as [|? ? _ H2]; subst.
+  inversion H2 as [|? ? H3 _]; subst.
+  inversion H3 as [|? ? _ H4]; subst. inversion H4 as [|? ? _ H5]; subst.
+  inversion H5 as [|? ? _ H6]; subst. inversion H6 as [|? ? _ H7]; subst.
+  inversion H7 as [|? ? H8 _]; subst. lia.
+Qed.
